@@ -1496,3 +1496,12 @@ impl Handler {
         Ok(((exit_sender, handler_send, handler_recv), wire))
     }
 }
+
+/// Verification hook: crate-visible path to the private `crypto` module.
+#[cfg(feature = "verif-hooks")]
+pub(crate) mod verif_crypto {
+    pub(crate) use super::crypto::{
+        decrypt_message, derive_keys_from_pubkey, encrypt_message, generate_session_keys,
+        sign_nonce, verify_authentication_nonce,
+    };
+}
